@@ -11,6 +11,7 @@ class Loop:
     index: Optional[str] = None      # name of the ghost position for `for` loops (default: _i<ordinal>)
     modifies: Optional[List[str]] = None   # extra heap fields / ghost havocked (beyond syntactic)
     unroll: bool = False             # iterable has a literal length: unroll
+    hints: List[Any] = field(default_factory=list)   # axiom instances (name, {var: expr}) assumed at the end of each iteration
 
 
 @dataclass
@@ -37,6 +38,8 @@ class Contract:
     replay: Optional[str] = None     # 'module:function' under /verif/replay
     hints: List[str] = field(default_factory=list)           # extra lemma instances assumed after `requires` (each is itself an obligation of kind 'lemma')
     verify: bool = True
+    opaque: List[str] = field(default_factory=list)          # non-recursive spec functions kept uninterpreted in this function's VCs
+    reads: List[str] = field(default_factory=list)           # heap fields a pure callee's result depends on
     locals: Dict[str, str] = field(default_factory=dict)   # types of locals that start as [] / None / {}
     note: str = ''
 
@@ -72,8 +75,10 @@ class Registry:
         self.shapes[cls] = s
         return s
 
-    def axiom(self, name, text, vars=None, source=''):
-        self.axioms.append((name, text, vars or {}, source))
+    def axiom(self, name, text, vars=None, source='', quantified=False):
+        """an assumed fact (listed in the evidence, bounded-validated natively).  By default it is only
+        usable through explicit instances (`hints=[(name, {var: expr})]`); quantified=True adds it to every VC."""
+        self.axioms.append((name, text, vars or {}, source, quantified))
 
     def lemma(self, name, vars, hyps, goal, pid=None, hints=()):
         self.lemmas.append((pid or self.pid, name, vars, list(hyps), goal, list(hints)))
